@@ -213,6 +213,8 @@ def generic_forwarding(ctx, rule: str, modules):
             bound = {k.arg for k in c.keywords if k.arg} | {pos[i] for i in range(min(len(pos), len(c.args)))}
             for p in [x for x in param_names(callee.node) if not x.startswith("*") and x not in SKIP]:
                 if p in avail and p not in bound:
+                    if _disjoint_annotations(_annotation_of(f, p), _annotation_of(callee, p)):
+                        continue  # same spelling, different thing: the two annotated types share no constituent (e.g. a FactorValues named `encoded` vs the flag `encoded: bool`)
                     n_formals += 1
                     ctx.look()
                     ex = [why for (cs, cn, pp), why in FORWARD_EXEMPT.items() if f.qualname.endswith(cs) and callee.name == cn and pp == p]
@@ -225,6 +227,73 @@ def generic_forwarding(ctx, rule: str, modules):
                                  f"its default instead of the caller's value")
     ctx.notes.append(f"{rule}: {n_calls} resolved intra-package calls inspected, {n_formals} same-name formals left unbound (all exempt) in {list(modules)}")
     ctx.ok(rule, f"same-name parameters are forwarded at all {n_calls} resolved call sites of {', '.join(m.replace('formulaic.', '') for m in modules)}", "formulaic/")
+
+
+def _annotation_of(f: FunctionInfo, p: str) -> Optional[ast.expr]:
+    g = f
+    while g is not None:
+        a = g.node.args
+        for x in list(a.posonlyargs) + list(a.args) + list(a.kwonlyargs):
+            if x.arg == p:
+                return x.annotation
+        g = g.parent
+    return None
+
+
+def _annotation_leaves(a: ast.expr) -> Optional[set]:
+    """The constituent type names of an annotation (Optional/Union/| unfolded, subscripts reduced to their head); None when it
+    cannot be read or is open (Any, object, a TypeVar-like single capital letter)."""
+    if isinstance(a, ast.Constant) and isinstance(a.value, str):
+        try:
+            a = ast.parse(a.value, mode="eval").body
+        except SyntaxError:
+            return None
+    out: set = set()
+
+    def go(e) -> bool:
+        if isinstance(e, ast.BinOp) and isinstance(e.op, ast.BitOr):
+            return go(e.left) and go(e.right)
+        if isinstance(e, ast.Subscript):
+            head = norm(e.value).split(".")[-1]
+            if head in ("Optional", "Union"):
+                els = e.slice.elts if isinstance(e.slice, ast.Tuple) else [e.slice]
+                return all(go(x) for x in els)
+            out.add(head)
+            return True
+        if isinstance(e, ast.Constant) and e.value is None:
+            return True
+        if isinstance(e, ast.Constant) and isinstance(e.value, str):
+            try:
+                return go(ast.parse(e.value, mode="eval").body)
+            except SyntaxError:
+                return False
+        if isinstance(e, (ast.Name, ast.Attribute)):
+            leaf = norm(e).split(".")[-1]
+            if leaf in ("Any", "object") or len(leaf) == 1:
+                return False
+            out.add(leaf)
+            return True
+        return False
+
+    return out if go(a) and out else None
+
+
+def _disjoint_annotations(a: Optional[ast.expr], b: Optional[ast.expr]) -> bool:
+    if a is None or b is None:
+        return False
+    la, lb = _annotation_leaves(a), _annotation_leaves(b)
+    if la is None or lb is None:
+        return False
+    # containers of one family under different names count as overlapping
+    fam = [{"Sequence", "List", "list", "Tuple", "tuple", "Iterable", "Collection", "Set", "set", "FrozenSet", "frozenset"},
+           {"Mapping", "Dict", "dict", "MutableMapping", "OrderedDict", "LayeredMapping"}, {"int", "float", "bool"} - {"bool"}]
+    def widen(s):
+        w = set(s)
+        for f_ in fam:
+            if w & f_:
+                w |= f_
+        return w
+    return not (widen(la) & widen(lb))
 
 
 def _unique_callee(P: Project, f: FunctionInfo, c: ast.Call) -> Optional[FunctionInfo]:
